@@ -77,8 +77,11 @@ Record vm := mk_vm {
   g_bind : list (N * N);         (* GlobalEnvironment.bindings: symbol address -> slot *)
   g_slots : list vcell;          (* GlobalEnvironment.slots *)
   stack : list vcell; sp : N; bp : N; ep : N; ip : N * N; acc : vcell;
-  out_log : list outev;          (* SystemInterface display/write calls, newest first *)
-  last_trace : option (list (option text * option cell))
+  out_log : list outev           (* SystemInterface display/write calls, newest first *)
 }.
+(* Vm::last_stacktrace is NOT part of [vm]: no instruction or builtin reads or writes
+   it (only run_count does), so the run-level functions of Vm.v carry it in their
+   result ([Failed e msg trace]) and the instruction-level monad cannot touch it. *)
+Definition trace := list (option text * option cell).
 
 Definition USIZE_MAX : N := 18446744073709551615.
